@@ -205,12 +205,15 @@ Den(e) ==                     \* [ok, q]: the search an expression denotes, or r
                         IN IF a.ok THEN [ok |-> TRUE, q |-> Paged(a.q, e.limit, e.offset)] ELSE a
 
 \* the property's domain: every member of an any_of carries at least one chart condition
-\* (an empty member would be "always true", which a chart group cannot say)
+\* (an empty member would be "always true", which a chart group cannot say; a member with plain
+\* parameters is in the domain: it must be refused)
 RECURSIVE InDomain(_)
 InDomain(e) ==
   CASE e.e \in {"ctor", "raw"} -> TRUE
     [] e.e = "anyof" -> /\ Len(e.subs) >= 1
-                        /\ \A i \in DOMAIN e.subs : InDomain(e.subs[i]) /\ (Den(e.subs[i]).ok => Den(e.subs[i]).q.charts # <<>>)
+                        /\ \A i \in DOMAIN e.subs :
+                              /\ InDomain(e.subs[i])
+                              /\ LET d == Den(e.subs[i]) IN d.ok => (d.q.charts # <<>> \/ d.q.simple # <<>>)
     [] e.e = "paged" -> e.limit > 0 /\ e.offset >= 0 /\ InDomain(e.subs[1])
     [] OTHER -> \A i \in DOMAIN e.subs : InDomain(e.subs[i])
 
